@@ -495,6 +495,32 @@ macro_rules! group_impl {
                         wnaf_table(&mut table, p, w);
                         table.iter().map(show_jac).collect::<Vec<_>>().join(";")
                     }
+                    // ONE window table (resp. ONE digit string) shared BY REFERENCE between concurrently running threads
+                    // (the library's `shared()` API); every thread's result must be what a fresh context gives
+                    ("wnafshare_base", 3) => {
+                        let b = parse_jac(a[0])?;
+                        let n = parse_usize(a[1])?;
+                        let ks = scalars(a[2])?;
+                        let mut ctx = Wnaf::new();
+                        let w = ctx.base(b, n);
+                        let outs: Vec<String> = std::thread::scope(|sc| {
+                            let hs: Vec<_> = ks.iter().map(|k| { let mut sh = w.shared(); let k = *k; sc.spawn(move || { let r: $proj = sh.scalar(FrRepr(k)); show_jac(&r) }) }).collect();
+                            hs.into_iter().map(|h| h.join().unwrap_or_else(|_| "PANIC".to_string())).collect()
+                        });
+                        outs.join(";")
+                    }
+                    ("wnafshare_scalar", 2) => {
+                        let k = scalar(a[0])?;
+                        let mut bs = vec![];
+                        for t in split_list(a[1]) { bs.push(parse_jac(t)?); }
+                        let mut ctx = Wnaf::new();
+                        let w = ctx.scalar(k);
+                        let outs: Vec<String> = std::thread::scope(|sc| {
+                            let hs: Vec<_> = bs.iter().map(|b| { let mut sh = w.shared(); let b = *b; sc.spawn(move || { let r: $proj = sh.base(b); show_jac(&r) }) }).collect();
+                            hs.into_iter().map(|h| h.join().unwrap_or_else(|_| "PANIC".to_string())).collect()
+                        });
+                        outs.join(";")
+                    }
                     ("wnafhist", 1) => {
                         let mut ctx = Wnaf::new();
                         let mut outs = vec![];
@@ -757,6 +783,17 @@ fn misc_op(op: &str, a: &[&str]) -> R {
             let p = g1::parse_jac(a[0])?.into_affine().prepare();
             let q = g2::parse_jac(a[1])?.into_affine().prepare();
             show_opt(Bls12::final_exponentiation(&Bls12::miller_loop(&[(&p, &q)])))
+        }
+        // ONE prepared G2 element shared by reference between concurrently running threads, each pairing it with its own P
+        ("pairshare", 2) => {
+            let mut ps = vec![];
+            for t in split_list(a[0]) { ps.push(g1::parse_aff(t)?); }
+            let q = g2::parse_aff(a[1])?.prepare();
+            let outs: Vec<String> = std::thread::scope(|sc| {
+                let hs: Vec<_> = ps.iter().map(|p| { let q = &q; let p = *p; sc.spawn(move || { let pp = p.prepare(); show_opt(Bls12::final_exponentiation(&Bls12::miller_loop(&[(&pp, q)]))) }) }).collect();
+                hs.into_iter().map(|h| h.join().unwrap_or_else(|_| "PANIC".to_string())).collect()
+            });
+            outs.join(";")
         }
         ("pairwith1", 2) => g1::parse_aff(a[0])?.pairing_with(&g2::parse_aff(a[1])?).show(),
         ("pairwith2", 2) => g2::parse_aff(a[1])?.pairing_with(&g1::parse_aff(a[0])?).show(),
